@@ -6,9 +6,9 @@ import CompmechVerif.Props.C06
 #print axioms Compmech.EigPost.C06.freq_ascending_partial
 #print axioms Compmech.EigPost.C06.rint_monotone_and_separating
 #print axioms Compmech.EigPost.C06.freq_ascending_counterexample
-#print axioms Compmech.EigPost.C06.freq_sparse_shapes
-#print axioms Compmech.EigPost.C06.freq_shapes_partial
-#print axioms Compmech.EigPost.C06.freq_shapes_counterexample
+#print axioms Compmech.EigPost.C06.freq_sparse_shapes_total
+#print axioms Compmech.EigPost.C06.freq_request_in_arpack_range
+#print axioms Compmech.EigPost.C06.freq_repaired_instance_returns
 #print axioms Compmech.EigPost.C06.freq_reduced_dof_shapes_counterexample
 #print axioms Compmech.EigPost.C06.take_index_cases
 #print axioms Compmech.EigPost.C06.reduced_expand_inverse
